@@ -9,6 +9,7 @@ import os
 import re
 import shutil
 
+from . import kernel as K
 from . import seams
 
 ARTEFACT_DIRS = ("include", "src", "python", "tests")
@@ -157,6 +158,17 @@ class Session:
             elif kind == "write":
                 # the reactions written to a file (as `export` does for reactions.naunet): read-only in intent
                 self.net.write(os.path.join(self.dir, "written_reactions.txt"), st.get("fmt", "naunet"))
+            elif kind == "enzo_patch":
+                # patch files for a host code, generated from the network (read-only in intent).  Whether
+                # the patch generator supports this kind of network is not C17's business: only what it
+                # leaves behind is
+                from pathlib import Path
+
+                try:
+                    N.patches.patch_factory("enzo", st.get("device", "cpu"), None).render(self.net, path=Path(self.dir) / "enzo")
+                except Exception as e:  # noqa: BLE001
+                    if K.raised_in_harness(e):
+                        raise
             elif kind == "set_required":
                 self.net.required_species = list(st["names"])
             elif kind == "set_rate_modifier":
